@@ -18,7 +18,7 @@ facts about compaction are C17's (`LanceModel.C17`, imported, not re-proved); re
 (`restore_rows`); the row id index is C34's (`index_faithful`, used as it is in `lookup_current`).
 -/
 namespace LanceModel.C18
-open LanceModel.Table LanceModel.C17 List
+open LanceModel.Table LanceModel.C17Base List
 
 /-! ## 1. `Transaction::assign_row_ids` -/
 
